@@ -87,7 +87,7 @@ CHECKS = {
     ),
     "C10": dict(
         level="fault_enumeration",
-        required_probes=['crash_debris_rejected', 'read_error_reported', 'type_1', 'type_9', 'parametric_round_trip'],
+        required_probes=['crash_debris_rejected', 'read_error_reported', 'type_1', 'type_9', 'parametric_round_trip', 'modality_nm'],
         parts=[dict(harness="chk_C10", variant="seq", src="checks/chk_C10.cpp",
                     runs=dict(quick=320, thorough=80000), wall_cap=dict(quick=160, thorough=2400))],
         rule=("one case = one generated image (index ranges with negative minima, sizes 1..12, origin, voxel sizes, six value "
